@@ -282,6 +282,26 @@ pub fn verdicts(r: &RunResult) -> Vec<Violation> {
     }
 }
 
+/// `collect()` must produce exactly the supplied keys, each with the last value supplied for it.
+pub fn collects(r: &RunResult) -> Vec<Violation> {
+    let mut out = Vec::new();
+    for h in &r.history {
+        if let (Op::Collect(kv, _), Res::Items { items, .. }) = (&h.op, &h.res) {
+            let mut want: BTreeMap<u32, u32> = BTreeMap::new();
+            for (k, vv) in kv {
+                want.insert(*k, *vv);
+            }
+            let mut got: Vec<(u32, u32)> = items.iter().map(|i| (i.k, i.vid)).collect();
+            got.sort_unstable();
+            let wantv: Vec<(u32, u32)> = want.into_iter().collect();
+            if got != wantv {
+                out.push(v("collect-wrong-contents", format!("t{} op{} collect() of {} pairs yields {:?}, expected {:?}", h.thread, h.idx, kv.len(), got, wantv)));
+            }
+        }
+    }
+    out
+}
+
 /// C03: references and memory.
 pub fn memory(r: &RunResult) -> Vec<Violation> {
     let mut out = Vec::new();
